@@ -5,7 +5,7 @@ import SphericalVerif.Model.Grid
       `ufunc <name> <call|at|other> kw=<0|1> out=<none|OUT> [form=…] ARG…`
       `method <name> ARG [ARG]`              name ∈ conjugate conjugate_inplace bar real imag absolute add subtract multiply divide
       `new shape=<SH> in=<none|SPIN;EXTRA> pos=<-|v,v,…> kwspin=<absent|none|int> kwextra=<EXTRA>`
-      `copy <objCopy|copyCopy|copyDeepcopy|npArraySubok|pickle:P> <spin|none> <EXTRA>`
+      `copy <objCopy|copyCopy|copyDeepcopy|npArraySubok|pickle:P> <spin|none> <EXTRA> [lead=…]`
     ARG   = `g:<spin>:<nt>:<np>:<SH lead>:<metaId>:<EXTRA>` | `s:<nz|z>:<SH>:<int|none>`
     OUT   = `g:…` as above | `p:<SH>`
     SH    = `-` (empty) | `2x3x…`;  EXTRA = `-` | `key,key,…`;  `form=…` tokens are ignored. -/
@@ -196,6 +196,6 @@ def step (toks : List String) : Option String :=
   | "ufunc" :: rest => stepUfunc rest
   | "method" :: rest => stepMethod rest
   | "new" :: rest => stepNew rest
-  | "copy" :: rest => stepCopy rest
+  | "copy" :: rest => stepCopy (rest.filter (fun t => !t.startsWith "lead="))
   | _ => none
 end GridOps
